@@ -916,7 +916,7 @@ func ruleTracked(c *Check, a *Analysis, rule string) {
 				return true
 			}
 			// `return nil, err`: the named result is cleared
-			if _, ok := st.Addr.(*ssa.Alloc); ok && nilConst(st.Val) && strings.HasSuffix(st.Val.Type().String(), "persistConn") {
+			if _, ok := st.Addr.(*ssa.Alloc); ok && nilConst(st.Val) && namedOf(st.Val.Type()) == "persistConn" {
 				return true
 			}
 		}
@@ -1280,7 +1280,7 @@ func ruleDialResult(c *Check, a *Analysis, rule string) {
 	}
 	isNilPc := func(x ssa.Instruction) bool {
 		if st, ok := x.(*ssa.Store); ok {
-			if _, isAl := st.Addr.(*ssa.Alloc); isAl && nilConst(st.Val) && strings.HasSuffix(st.Val.Type().String(), "persistConn") {
+			if _, isAl := st.Addr.(*ssa.Alloc); isAl && nilConst(st.Val) && namedOf(st.Val.Type()) == "persistConn" {
 				return true
 			}
 		}
